@@ -251,8 +251,8 @@ def shapes(tier, seed):
         if q and (a, b) not in (('shell', 'shell'), ('stat', 'pull')):
             out.append({'h': 'threads', 'ops': [small[a], small[b]], 'preempt': 1, 'yields': False, 'max_paths': 60000})
         else:
-            for i in range(12):
-                out.append({'h': 'threads', 'ops': [small[a], small[b]], 'preempt': 2, 'yields': False, 'max_paths': 60000, 'xpart': [i, 12, 12]})
+            for i in range(16):
+                out.append({'h': 'threads', 'ops': [small[a], small[b]], 'preempt': 2, 'yields': False, 'max_paths': 60000, 'xpart': [i, 16, 12]})
         for i in range(2):
             out.append({'h': 'threads', 'ops': [small[a], small[b]], 'preempt': 1, 'yields': True, 'max_paths': 60000, 'xpart': [i, 2, 8]})
         out.append({'h': 'async', 'ops': [small[a], small[b]], 'max_paths': 60000})
